@@ -236,12 +236,10 @@ class GraphNode(HyperNode):
         Returns:
             Original name used in the inner graph.
         """
-        current = param
-        # Walk rename history in reverse to find original
-        for entry in reversed(self._rename_history):
-            if entry.kind == "inputs" and entry.new == current:
-                current = entry.old
-        return current
+        # Batch-aware: entries of one with_inputs() call are parallel renames
+        # (e.g. a swap x<->y), exactly as in map_inputs_to_params().
+        reverse_map = build_reverse_rename_map(self._rename_history, "inputs")
+        return reverse_map.get(param, param)
 
     def map_inputs_to_params(self, inputs: dict[str, Any]) -> dict[str, Any]:
         """Map renamed input names back to original inner graph parameter names.
@@ -312,8 +310,9 @@ class GraphNode(HyperNode):
         if not reverse_map:
             return outputs
 
-        # Build forward map (original -> renamed) by inverting reverse map
-        forward_map = {v: k for k, v in reverse_map.items()}
+        # Build forward map (original -> renamed) from the CURRENT output names only:
+        # the reverse map also remembers names that have since been renamed away.
+        forward_map = {reverse_map.get(name, name): name for name in self.outputs}
         return {forward_map.get(key, key): value for key, value in outputs.items()}
 
     def has_default_for(self, param: str) -> bool:
